@@ -996,23 +996,30 @@ pub fn scan_file(rel: &str, src: &str, g: &Globals) -> FileScan {
                     a -= 1;
                     steps += 1;
                 }
-                let mut z = i;
+                // forward from the START of the statement (an occurrence nested in a call's parentheses must not end
+                // the statement at that call's `)`), ending at the first `;` / closing bracket at depth 0 past the site
+                let mut z = a;
                 let mut d = 0i64;
                 steps = 0;
-                while z < t.len() && steps < 200 {
+                while z < t.len() && steps < 280 {
                     let x = at(z);
                     if x == "(" || x == "[" || x == "{" {
                         d += 1;
                     } else if x == ")" || x == "]" || x == "}" {
                         d -= 1;
-                        if d < 0 {
+                        if d < 0 && z >= i {
                             break;
                         }
-                    } else if x == ";" && d <= 0 {
+                        if d < 0 {
+                            d = 0;
+                        }
+                    } else if x == ";" && d <= 0 && z >= i {
                         break;
                     }
                     z += 1;
-                    steps += 1;
+                    if z > i {
+                        steps += 1;
+                    }
                 }
                 let stmt: Vec<&str> = t[a..z.min(t.len())].iter().map(|x| x.s.as_str()).collect();
                 fs.sites.push(Site { file: rel.to_string(), func, kind, what, line: t[i].line, stmt: stmt.join(" ") });
@@ -1669,6 +1676,7 @@ fn sites(tree: &Tree, out: &mut Out) -> serde_json::Value {
     let present: BTreeSet<&str> = by_key.keys().filter_map(|k| allowed.get_key_value(k.as_str()).map(|(k, _)| *k)).collect();
     let mut taken: BTreeSet<&str> = BTreeSet::new();
     let mut rekeyed: Vec<String> = Vec::new();
+    let mut auto_justified: Vec<String> = Vec::new();
     for (key, ss) in &by_key {
         let first = ss[0];
         // a function that was RENAMED, or whose body moved into a helper / another file, keeps its entry: an
@@ -1683,12 +1691,34 @@ fn sites(tree: &Tree, out: &mut Out) -> serde_json::Value {
                     continue;
                 }
                 let p: Vec<&str> = k.split('|').collect();
-                if p.len() == 4 && p[2] == first.kind && p[3] == first.what && (p[0] == first.file || last(p[1]) == last(&first.func)) {
+                // same kind and same RECEIVER (`our_keys.iter` rewritten as `for … in our_keys` is the same iteration)
+                let recv = |w: &str| w.split('.').next().unwrap_or("").to_string();
+                if p.len() == 4 && p[2] == first.kind && (p[3] == first.what || (first.kind == "hash-iteration" && recv(p[3]) == recv(&first.what) && p[0] == first.file && last(p[1]) == last(&first.func)))
+                    && (p[0] == first.file || last(p[1]) == last(&first.func)) {
                     taken.insert(*k);
                     rekeyed.push(format!("{} -> {}|{}", k, first.file, first.func));
                     resolved = Some((*k, (*n, *j, *note)));
                     break;
                 }
+            }
+        }
+        // an UNLISTED hash iteration that is order-insensitive on its face needs no entry (a merge moved into a
+        // new helper, a loop rewritten as a chain): either its statement folds per key into a map (`.entry(…)`),
+        // or its function RETURNS a hash / BTree container — and neither the statement nor the function body
+        // exposes an order (no push / next / take / find / break / format / Vec / generator draw …)
+        if resolved.is_none() && first.kind == "hash-iteration" {
+            const EXPOSES: &[&str] = &["push", "push_str", "push_back", "push_front", "next", "take", "skip", "find", "find_map", "position", "first", "last", "nth", "break",
+                "format", "write", "writeln", "print", "println", "gen_range", "gen_bool", "next_u64", "rng", "shuffle", "zip", "enumerate", "rev", "fold", "reduce", "send", "try_send",
+                "Vec", "VecDeque", "String", "join", "concat", "min_by_key", "max_by_key", "min_by", "max_by"];
+            let body = tree.files.get(&first.file).and_then(|f| f.bodies.get(&first.func)).cloned().unwrap_or_default();
+            let sig = tree.files.get(&first.file).and_then(|f| f.sigs.get(&first.func)).cloned().unwrap_or_default();
+            let exposes = |text: &str| text.split(' ').any(|w| EXPOSES.contains(&w));
+            let ret = sig.rsplit_once("- >").map(|x| x.1.to_string()).unwrap_or_default();
+            let returns_unordered = ret.split(' ').any(|w| HASH_TYPES.contains(&w) || w == "BTreeMap" || w == "BTreeSet" || tree.globals.hash_types.contains(w));
+            let per_key_fold = ss.iter().all(|x| x.stmt.contains(". entry (") && !exposes(&x.stmt));
+            if !body.is_empty() && !exposes(&body) && (per_key_fold || returns_unordered) {
+                auto_justified.push(format!("{} ({}:{}: {})", key, first.file, first.line, if per_key_fold { "per-key fold into a map" } else { "feeds only the unordered container the function returns" }));
+                continue;
             }
         }
         match resolved {
@@ -1801,7 +1831,8 @@ fn sites(tree: &Tree, out: &mut Out) -> serde_json::Value {
     }
     json!({"files_scanned": n_files, "functions_scanned": n_funcs, "sites_by_kind": per_kind, "sites_by_justification": per_just,
            "allow_list_entries": ALLOWED.len(), "stale_allow_list_entries(the code they excused is gone)": stale,
-           "entries_followed_to_a_renamed_or_moved_function": rekeyed})
+           "entries_followed_to_a_renamed_or_moved_function": rekeyed,
+           "unlisted_hash_iterations_order_insensitive_on_their_face": auto_justified})
 }
 
 pub fn report(out: &mut Out) {
